@@ -190,6 +190,111 @@ func impliesPositive(info *types.Info, cond ast.Expr, branch bool, text string) 
 
 // guardedAt: on every path of body that reaches site, text > 0 has been established by a test and not been assigned since.
 func guardedAt(info *types.Info, body *ast.BlockStmt, site ast.Node, text string) bool {
+	return guardedBy(body, site, text, func(cond ast.Expr, branch bool) bool { return impliesPositive(info, cond, branch, text) })
+}
+
+// impliesBound: does cond, when it evaluates to branch, imply text >= lo (upper false) or text <= hi (upper true)?
+func impliesBound(info *types.Info, cond ast.Expr, branch bool, text string, bound int64, upper bool) bool {
+	cond = ast.Unparen(cond)
+	if u, ok := cond.(*ast.UnaryExpr); ok && u.Op == token.NOT {
+		return impliesBound(info, u.X, !branch, text, bound, upper)
+	}
+	b, ok := cond.(*ast.BinaryExpr)
+	if !ok {
+		return false
+	}
+	op := b.Op
+	l, r := ast.Unparen(b.X), ast.Unparen(b.Y)
+	if types.ExprString(r) == text {
+		l, r = r, l
+		switch op {
+		case token.LSS:
+			op = token.GTR
+		case token.LEQ:
+			op = token.GEQ
+		case token.GTR:
+			op = token.LSS
+		case token.GEQ:
+			op = token.LEQ
+		}
+	}
+	if types.ExprString(l) != text {
+		return false
+	}
+	tv, ok := info.Types[r]
+	if !ok || tv.Value == nil {
+		return false
+	}
+	cv, exact := constant.Int64Val(constant.ToInt(tv.Value))
+	if !exact {
+		return false
+	}
+	if !branch {
+		// the negation of the comparison holds
+		switch op {
+		case token.LSS:
+			op = token.GEQ
+		case token.LEQ:
+			op = token.GTR
+		case token.GTR:
+			op = token.LEQ
+		case token.GEQ:
+			op = token.LSS
+		case token.EQL:
+			op = token.NEQ
+		case token.NEQ:
+			op = token.EQL
+		}
+	}
+	// E op cv holds
+	switch op {
+	case token.GEQ:
+		return !upper && cv >= bound
+	case token.GTR:
+		return !upper && cv+1 >= bound
+	case token.LEQ:
+		return upper && cv <= bound
+	case token.LSS:
+		return upper && cv-1 <= bound
+	case token.EQL:
+		if upper {
+			return cv <= bound
+		}
+		return cv >= bound
+	}
+	return false
+}
+
+// viaConnectives decides an implication for a condition built with !, && and || from its comparisons (go/cfg keeps a
+// short-circuit condition as one node): A || B false means both false, A && B true means both true; the other two cases need
+// the implication from both operands.
+func viaConnectives(cond ast.Expr, branch bool, atom func(cond ast.Expr, branch bool) bool) bool {
+	cond = ast.Unparen(cond)
+	switch x := cond.(type) {
+	case *ast.UnaryExpr:
+		if x.Op == token.NOT {
+			return viaConnectives(x.X, !branch, atom)
+		}
+	case *ast.BinaryExpr:
+		switch x.Op {
+		case token.LOR:
+			if !branch {
+				return viaConnectives(x.X, false, atom) || viaConnectives(x.Y, false, atom)
+			}
+			return viaConnectives(x.X, true, atom) && viaConnectives(x.Y, true, atom)
+		case token.LAND:
+			if branch {
+				return viaConnectives(x.X, true, atom) || viaConnectives(x.Y, true, atom)
+			}
+			return viaConnectives(x.X, false, atom) && viaConnectives(x.Y, false, atom)
+		}
+	}
+	return atom(cond, branch)
+}
+
+// guardedBy: on every path of body that reaches site, a test for which implies(cond, branch) holds has been passed and the
+// tested expression (text) has not been assigned since.
+func guardedBy(body *ast.BlockStmt, site ast.Node, text string, implies func(cond ast.Expr, branch bool) bool) bool {
 	g := cfg.New(body, func(*ast.CallExpr) bool { return true })
 	if len(g.Blocks) == 0 {
 		return false
@@ -250,10 +355,10 @@ func guardedAt(info *types.Info, body *ast.BlockStmt, site ast.Node, text string
 		t, f := st, st
 		if len(b.Succs) == 2 && len(b.Nodes) > 0 {
 			if cond, ok := b.Nodes[len(b.Nodes)-1].(ast.Expr); ok {
-				if impliesPositive(info, cond, true, text) {
+				if viaConnectives(cond, true, implies) {
 					t = yes
 				}
-				if impliesPositive(info, cond, false, text) {
+				if viaConnectives(cond, false, implies) {
 					f = yes
 				}
 			}
